@@ -174,6 +174,12 @@ def _nary_mul(args: list[fpc.Expr]):
 def _size0_expr(x: str):
     return fpc.Size(fpc.Var(x), fpc.Integer(0))
 
+def _index(i: int) -> fpc.Expr:
+    """A synthesized position in a tuple.  A bare literal would be rounded
+    under whatever context surrounds it (``9`` is ``10`` at 3 bits of
+    precision), so it is annotated to stay the integer it is."""
+    return fpc.Ctx({ 'precision': fpc.Data(fpc.Var('integer')) }, fpc.Integer(i))
+
 
 class _FPCoreCompileInstance(Visitor):
     """Compilation instance from FPy to FPCore"""
@@ -1267,7 +1273,6 @@ class _FPCoreCompileInstance(Visitor):
         if isinstance(stmt.target, NamedId):
             raise FPCoreCompileError('Context statements cannot bind to a variable', stmt.target)
 
-        body = self._visit_block(stmt.body, ctx)
         # extract a context value
         match stmt.ctx:
             case ForeignVal():
@@ -1279,16 +1284,44 @@ class _FPCoreCompileInstance(Visitor):
         # convert to properties
         match val:
             case Context():
-                props = FPCoreContext.from_context(val).props
+                props = dict(FPCoreContext.from_context(val).props)
             case FPCoreContext():
-                props = val.props
+                props = dict(val.props)
             case _:
                 raise FPCoreCompileError('Expected `Context` or `FPCoreContext`', val)
 
         # transform properties
-        for k in props:
-            props[k] = fpc.Data(self._visit_data(props[k]))
-        return fpc.Ctx(props, body)
+        props = { k: fpc.Data(self._visit_data(v)) for k, v in props.items() }
+
+        if ctx is None:
+            # the block ends the function: its value is the function's value
+            return fpc.Ctx(props, self._visit_block(stmt.body, None))
+
+        # An FPCore annotation scopes over an expression, not over the
+        # statements that follow the block.  So the annotated expression is
+        # the block alone, evaluating to the variables it defines or updates,
+        # and the rest of the program (`ctx`) binds them outside of it:
+        # (let ([<x> (! <props> (begin <body> <x>))]) <ctx>)
+        changed = sorted(
+            self.def_use.mutated_in(stmt.body) | self.def_use.introed_in(stmt.body)
+        )
+        if len(changed) == 0:
+            body = self._visit_block(stmt.body, fpc.Integer(0))
+            return fpc.Let([('_', fpc.Ctx(props, body))], ctx)
+        elif len(changed) == 1:
+            name = str(changed[0])
+            body = self._visit_block(stmt.body, fpc.Var(name))
+            return fpc.Let([(name, fpc.Ctx(props, body))], ctx)
+        else:
+            # (let* ([<t> (! <props> (begin <body> (array <x> ...)))]
+            #        [<x> (ref <t> 0)] ...) <ctx>)
+            tuple_id = str(self.gensym.fresh('t'))
+            names = [str(name) for name in changed]
+            body = self._visit_block(stmt.body, fpc.Array(*[fpc.Var(name) for name in names]))
+            bindings: list[tuple[str, fpc.Expr]] = [(tuple_id, fpc.Ctx(props, body))]
+            for i, name in enumerate(names):
+                bindings.append((name, fpc.Ref(fpc.Var(tuple_id), _index(i))))
+            return fpc.LetStar(bindings, ctx)
 
     def _visit_assert(self, stmt: AssertStmt, ctx: None):
         # strip the assertion
